@@ -1,10 +1,11 @@
 SPECIFICATION Spec
 CONSTANTS MaxN = 2
-Coords <- C3
+Coords <- C2
 CtrlCoords <- C2
 Letters <- LettersAll
-GuardZ = TRUE
-GuardDeg = TRUE
-GuardZeroL = TRUE
+FixZ = TRUE
+FixDeg = TRUE
+FixZeroL = TRUE
+ForgetCp = TRUE
 INVARIANTS Refines InRange
 CHECK_DEADLOCK FALSE
